@@ -166,7 +166,8 @@ Theorem process_file_err src e l p' :
   process_file src = CliErr e l p' ->
   exists done p0, add_stmts prog_init done = ROk tt p0 /\ p_out p' = p_out p0
     /\ ( (* the front end stopped: bad UTF-8, lex error, parse error *)
-         (reads_prefix (split_lines src) done /\ p' = p0)
+         (reads_prefix (split_lines src) done /\ p' = p0
+          /\ ((e = EIo /\ l = nil_loc) \/ e = ELex \/ e = EParse))
          \/ (* the next statement failed *)
          (exists s rest, add_stmt p0 s = RErr e p' /\ l = p_loc p'
             /\ (compiles (split_lines src) (done ++ s :: rest) \/ reads_prefix (split_lines src) (done ++ s :: rest)))).
@@ -175,8 +176,9 @@ Proof.
   destruct (front 1 (split_lines src) lexer_init parser_init) as [ss fe] eqn:Fr. cbn [fst snd].
   destruct (add_stmts prog_init ss) as [[] q|e1 q|s q] eqn:A; cbn [finish]; try discriminate.
   - destruct fe as [|e1 l1|s1]; try discriminate. intros H. injection H as <- <- <-.
-    exists ss, q. split; [exact A|]. split; [reflexivity|]. left. split; [|reflexivity].
-    eapply front_reads_prefix; [exact Fr|discriminate].
+    exists ss, q. split; [exact A|]. split; [reflexivity|]. left.
+    split; [eapply front_reads_prefix; [exact Fr|discriminate]|]. split; [reflexivity|].
+    pose proof (front_verdict (split_lines src) 1 lexer_init parser_init pinv_init) as K. rewrite Fr in K. exact K.
   - intros H. injection H as <- <- <-.
     destruct (add_stmts_err_split _ _ _ _ A) as (done & s & rest & p0 & -> & Hd & Hs).
     exists done, p0. split; [exact Hd|]. split; [eapply add_stmt_err_quiet; exact Hs|]. right.
@@ -258,7 +260,7 @@ Proof.
   assert (Hp : pcap_of p = file_of (timeline 0 vs)) by (rewrite <- Hf; unfold pcap_of; rewrite Ho; reflexivity).
   exists done, vs, p0. split; [exact Hr|]. split; [exact Hp|]. split.
   - intros Hs. rewrite Hp in *. apply pcap_read_small. exact Hs.
-  - destruct Hc as [[Hc _]|(s & rest & Hs & Hl & Hc)]; [left; exact Hc|right].
+  - destruct Hc as [(Hc & _ & _)|(s & rest & Hs & Hl & Hc)]; [left; exact Hc|right].
     exists s, rest, p. split; [exact Hs|]. split; [exact Hl|exact Hc].
 Qed.
 
